@@ -138,7 +138,8 @@ def run_config(torch, gpytorch, settings, _verif, c):
     tshape = (tasks,) if tasks else ()
     desc = "%s/%s model_batch=%s input_batch=%s target_batch=%s fast_pred_var=%s detach=%s depth=%d grad=%s" % (
         kind, lik_kind, list(MB), list(IB), list(TB), c["fpv"], c["detach"], depth, c["grad"])
-    cell = "C04/%s/%s/mb%d-ib%d-tb%d%s" % (kind, lik_kind, len(MB), len(IB), len(TB), "" if c["grad"] else "/nograd")
+    cell = "C04/%s/%s/mb%d-ib%d-tb%d%s%s" % (kind, lik_kind, len(MB), len(IB), len(TB), "" if c["grad"] else "/nograd",
+                                         "/unit-batch-dims" if 1 in (list(MB) + list(TB)) else "")
     key = [kind, lik_kind, list(MB), list(IB), list(TB), c["fpv"], c["detach"], depth, c["grad"]]
     res = dict(key=key, ok=True, nontrivial=True, sample=dict(config=desc))
 
